@@ -9,12 +9,14 @@
      - hence, for streams free of exact ties, a predict call and a whole history of predict calls report the same
        records (ids included: [commit] issues them) and reach the same tracker state for every shard count and
        every schedule.
-   Assumption, stated as a hypothesis: on tie-free streams the voting engines are invariant under permutation of
+   For SORT the voting assumption is discharged below (Section C05_Sort). In the generic theorems it is a
+   hypothesis: on tie-free streams the voting engines are invariant under permutation of
    the stream; that is proved about the voting models in the developments of C17/C02 (another builder),
    [winners_perm_invariant] is exactly their statement. The sequential commit is a function of the abstract
    store (the store refines a finite map whatever the shard count: C09). *)
 From Coq Require Import List NArith Bool Arith Permutation.
-From Similari Require Import Model.DistProto Proofs.DistProtoProofs.
+From Coq Require Import ZArith.
+From Similari Require Import Model.DistProto Proofs.DistProtoProofs Model.Assign Proofs.AssignProofs Proofs.AssignPerm Proofs.C05Sort.
 Import ListNotations.
 
 Section C05.
@@ -90,6 +92,65 @@ Section C05.
              TS IN OUT W store_of cands_of winners commit tie_free winners_perm_invariant).
   Qed.
 End C05.
+
+(* ---------------------------------------------------------------------------------------------------------
+   SORT (Hungarian voting): the hypothesis [winners_perm_invariant] is discharged by the voting development
+   (Props/C17.v hungarian_winners_perm_invariant, Proofs/AssignPerm.v). What remains are the hypotheses of that
+   theorem: a positive threshold, the Kuhn-Munkres oracle returns an optimal assignment on every padded matrix
+   ([km_ok]; the oracle itself is not modelled, DESIGN section 5), and each call is free of exact ties
+   ([sort_tie_free]: positive ids, candidate ids distinct from track ids, one metric per (candidate, track) pair,
+   a unique optimal gated assignment).  [sort_winners_of] is SortVoting::winners on the delivered stream with its
+   answer in canonical order; [weight_of] is the integer weight SortVoting derives from a metric value. *)
+Section C05_Sort.
+  Variable track : Type.
+  Variable OBS : Type.
+  Variable MV : Type.
+  Variable tid : track -> N.
+  Variable compatible : track -> track -> bool.
+  Variable baked : track -> status.
+  Variable observations : track -> N -> option (list OBS).
+  Variable metric : N -> track -> OBS -> track -> OBS -> option MV.
+  Variable postprocess : track -> list (res MV) -> list (res MV).
+  Variable cls : N.
+  Variable ob : bool.
+  Variable TS : Type.
+  Variable IN : Type.
+  Variable OUT : Type.
+  Variable store_of : TS -> list track.
+  Variable cands_of : TS -> IN -> TS * list track.
+  Variable commit : TS -> list track -> option (list (N * N)) -> TS * OUT.
+  Variable weight_of : MV -> Z.
+  Variable km : matrix -> list nat.
+  Variable thr : Z.
+
+  Notation WINNERS := (sort_winners_of MV weight_of km thr).
+  Notation TIEFREE := (sort_tie_free MV weight_of thr).
+  Notation PREDICT := (predict_rel track OBS MV tid compatible baked observations metric postprocess cls ob
+                                   TS IN OUT (option (list (N * N))) store_of cands_of WINNERS commit).
+  Notation HISTORY := (history_rel track OBS MV tid compatible baked observations metric postprocess cls ob
+                                   TS IN OUT (option (list (N * N))) store_of cands_of WINNERS commit).
+
+  Theorem predict_shard_schedule_independent_sort :
+    forall n1 n2 ts inp t1 o1 t2 o2,
+      (0 < thr)%Z -> km_ok km -> 0 < n1 -> 0 < n2 ->
+      tie_free_call track OBS MV tid compatible baked observations metric postprocess cls ob TS IN store_of cands_of TIEFREE ts inp ->
+      PREDICT n1 ts inp t1 o1 -> PREDICT n2 ts inp t2 o2 -> t1 = t2 /\ o1 = o2.
+  Proof.
+    exact (predict_independent_sort_lemma track OBS MV tid compatible baked observations metric postprocess cls ob
+             TS IN OUT store_of cands_of commit weight_of km thr).
+  Qed.
+
+  Theorem history_shard_schedule_independent_sort :
+    forall n1 n2 ins ts t1 os1 t2 os2,
+      (0 < thr)%Z -> km_ok km -> 0 < n1 -> 0 < n2 ->
+      tie_free_history track OBS MV tid compatible baked observations metric postprocess cls ob
+                       TS IN OUT (option (list (N * N))) store_of cands_of WINNERS commit TIEFREE n1 ts ins ->
+      HISTORY n1 ts ins t1 os1 -> HISTORY n2 ts ins t2 os2 -> t1 = t2 /\ os1 = os2.
+  Proof.
+    exact (history_independent_sort_lemma track OBS MV tid compatible baked observations metric postprocess cls ob
+             TS IN OUT store_of cands_of commit weight_of km thr).
+  Qed.
+End C05_Sort.
 
 (* Non-vacuity: the same query on a 1-shard and on a 3-shard placement of the same four tracks, different
    worker orders, delivers the same multiset (here: the same number of results, not all empty). *)
